@@ -12,6 +12,16 @@ CHECKS = {
     text="Bounded-exhaustive enumeration (depth-1 exploration, nothing sampled) of the real compute_swap over (boundary values)^3 x 14 fee triples x 3 decimal settings plus a dense cube: 4.2e6 points quick, 2.0e8 thorough; every point compared with an exact 1024-bit oracle (gross price, each fee, return<ask, totality incl. caught panics, there-and-back). A sub-grid is executed on the really deployed pair: Simulation query == hook result and executed there-and-back swaps never gain.",
     note="Covers structured grid points only, not all 2^384 inputs. Totality is judged against the ideal-price spread fitting 128 bits. Trusted: uint crate arithmetic for the oracle.",
     tech="bounded-exhaustive input-grid enumeration on the real function + deployed contract (explicit-state, depth 1)", ref="DESIGN.md §4 C02"),
+ "C04": dict(
+    text="Explicit-state BFS over the real factory+stableswap_3pool(+cw20): all sequences of <=3 (quick) / <=4 (thorough) deposits, withdrawals, swaps in all six directions, fee collections, fee changes, amp ramps (values on/inside/outside every bound) and block advances; on every transition D is re-solved independently (bisection on the exact polynomial) at the operation's effective amp: D/S monotone, mint <= invariant growth, pool keeps the curve reserve up to slope-scaled dust, fee split exact, there-and-back probe, ramp accepted only within bounds, effective amp == independent linear interpolation (also over a full (initial,target,start,stop,now) grid through the hook).",
+    note="Bounded alphabets/depth. Rounding dust: 8 base units of D, or 4+4*max dD/dx_i when that fails; swap: 2+2*slope. Three known findings (inexact integer D/y in imbalanced pools) are reported as KNOWN-FINDING.",
+    tech="explicit-state model checking of the implementation (BFS) + exhaustive amp grid", ref="DESIGN.md §4 C04"),
+ "C05": dict(
+    text="Explicit-state BFS over the real vault_factory+vault+cw20 LP+fee collector with a scripted borrower contract: all sequences of <=3/<=4 deposits, withdrawals, flash loans (repay exact/+1000/-1/fail), collections and fee changes from native and cw20 roots (empty, 1001, 1e6, 1e30, with pending fees); share price (B-P)/S monotone in exact integers, pro-rata mint/withdraw bounds, min-liquidity lock, deposit->withdraw probe on every accepted deposit.",
+    note="Bounded alphabets/depth; nested loans are exercised by C06.", tech="explicit-state model checking of the implementation (BFS)", ref="DESIGN.md §4 C05"),
+ "C07": dict(
+    text="Explicit-state BFS over four real scenarios (CP pair, stableswap pair, 3pool, vault), each with a fresh fee collector: operations sized so one charge lands in {0,1,500,999,1000,1001,1e6}; reference ledgers (sums of the charges reported by accepted operations) are compared in every state with pending/all-time/burned queries, collector balance and token supply; every collect is checked for exact transfer, no other recipient, unchanged LP reserves.",
+    note="Bounded alphabets/depth 3/4. Collector has no other income by construction.", tech="explicit-state model checking of the implementation (BFS) with reference-ledger ghost state", ref="DESIGN.md §4 C07"),
 }
 NOT_BUILT = "check not built yet in this round (planned, see DESIGN.md)"
 props = [json.loads(l) for l in open('/verif/properties.jsonl')]
